@@ -206,6 +206,41 @@ func runC10(p *eng.Prog, r *eng.Report, tier string) {
 		c.r.Check("C10.3", u.fn, "use of Session.in.d", "C: outside negotiation the decoder is read only by lockReadCloser.Token", u.expr.Pos(), u.fn.Short == "xmpp.(*lockReadCloser).Token", "decoder used in "+u.fn.Short)
 	}
 
+	sendErrorReturnsError(c, "C10.5")
+	// ---- C10.8 who may touch the connection's read deadline ------------------------------
+	// SetCloseDeadline puts the close deadline on the connection as its read
+	// deadline; the write paths interrupt a write by expiring and then
+	// clearing the WRITE deadline only. A SetDeadline / SetReadDeadline
+	// anywhere else (the write-deadline watcher resetting "the deadline")
+	// silently removes the close deadline and Serve never returns.
+	readDL := map[string]string{
+		"xmpp.setDeadline$1":               "negotiation watcher: runs before the session is served",
+		"xmpp.setDeadline":                 "negotiation watcher",
+		"xmpp.(*Session).SetCloseDeadline": "installs the close deadline",
+		"xmpp.(*conn).SetDeadline":         "forwarding method of the connection wrapper",
+		"xmpp.(*conn).SetReadDeadline":     "forwarding method of the connection wrapper",
+		"xmpp.teeConn.SetDeadline":         "forwarding method of the tee connection",
+		"xmpp.teeConn.SetReadDeadline":     "forwarding method of the tee connection",
+	}
+	nDL := 0
+	for _, f := range c.allFns() {
+		if f.Pkg.PkgPath != eng.ModPath || f.Body == nil {
+			continue
+		}
+		for _, cl := range f.AllCalls() {
+			sel, ok := ast.Unparen(cl.Fun).(*ast.SelectorExpr)
+			if !ok || (sel.Sel.Name != "SetDeadline" && sel.Sel.Name != "SetReadDeadline") {
+				continue
+			}
+			if t := f.Info().TypeOf(sel.X); t == nil || !hasMethod(t, "SetWriteDeadline") {
+				continue
+			}
+			nDL++
+			_, okSite := readDL[f.Short]
+			c.r.Check("C10.8", f, "call of "+sel.Sel.Name, "C: the read deadline of the connection is touched only by the negotiation watcher, SetCloseDeadline and the forwarding wrappers", cl.Pos(), okSite, f.Short+" sets or clears the connection's read deadline: a close deadline installed by SetCloseDeadline is lost")
+		}
+	}
+	c.r.Floor("C10.8", "read-deadline sites", nDL, 3)
 	// ---- C10.7 SetCloseDeadline installs an independent deadline ------------------------
 	// the new context must not descend from the one it replaces: a child keeps
 	// its parent's earlier deadline (a later call could never extend it) and is
